@@ -215,7 +215,8 @@ inline void on_death() {
     if (f) { fputs(c.c_str(), f); fclose(f); }
 }
 #if defined(__has_feature)
-#if __has_feature(address_sanitizer) || __has_feature(thread_sanitizer)
+// (not under TSan: a death callback running instrumented code while the report lock is held deadlocks the process)
+#if __has_feature(address_sanitizer)
 #define VF_HAVE_DEATH_CB 1
 extern "C" void __sanitizer_set_death_callback(void (*)(void));
 #endif
